@@ -187,6 +187,18 @@ func checkC20(c *Ctx) {
 				continue
 			}
 			arg := fwd.Common().Args[0]
+			// the copy may be made by a module function that is itself the JSON round trip (Table.Clone):
+			// its result is then as private as an inline decode
+			if g := clonerCall(p, arg); g != nil && symIsParam(p.Sym(g.Common().Args[0]).Strip(), in) {
+				c.Ok("R2", canonTypeName(t.Obj())+":passes-fresh-copy", p.InstrPos(fwd), "actor receives the result of "+calleeName(g.Common())+"(incoming), a JSON round trip into a fresh table")
+				c.Ok("R2", canonTypeName(t.Obj())+":copy-from-incoming-json", where, calleeName(g.Common())+" decodes json.Marshal of its receiver into a new table on every non-nil return")
+				for _, ss := range p.Stores([]*ssa.Function{f}) {
+					if ss.Field == "table" && ss.Owner == canonTypeName(t.Obj()) {
+						c.Check(ss.ValV == arg, "R2", canonTypeName(t.Obj())+":keeps-the-copy", p.InstrPos(ss.Instr), "adapter keeps the same private copy", "the adapter keeps "+ss.Val.String()+" instead of the private copy")
+					}
+				}
+				continue
+			}
 			local := rawLocal(arg)
 			c.Check(local && !symIsParam(p.Sym(arg), in), "R2", canonTypeName(t.Obj())+":passes-fresh-copy", p.InstrPos(fwd), "actor receives the address of a local copy", "the actor receives "+p.Sym(arg).String()+" — the engine's own table (or something reachable from it), not a private copy")
 			// that local is the target of json.Unmarshal of the incoming table's JSON
@@ -279,4 +291,60 @@ func checkC20(c *Ctx) {
 	if nBad == 0 {
 		c.Ok("R3", "observer-has-no-write-path", p.Pos(obs.Pos()), fmt.Sprintf("%d functions reachable from the observer runner, none calls a player action", len(ri2.Order)))
 	}
+}
+
+// clonerCall: v is (the first result of) a static call of a module function that is a JSON deep copy of
+// its first argument: every return hands out nil or the address of a fresh local that json.Unmarshal
+// filled, before the return, from json.Marshal / GetJSON of that first argument.
+func clonerCall(p *Prog, v ssa.Value) *ssa.Call {
+	if ex, ok := v.(*ssa.Extract); ok && ex.Index == 0 {
+		v = ex.Tuple
+	}
+	call, ok := v.(*ssa.Call)
+	if !ok {
+		return nil
+	}
+	g := call.Common().StaticCallee()
+	if g == nil || !inModule(p, g) || len(g.Params) == 0 || len(g.Blocks) == 0 || len(call.Common().Args) == 0 {
+		return nil
+	}
+	src := g.Params[0]
+	nRet := 0
+	for _, b := range g.Blocks {
+		for _, in := range b.Instrs {
+			ret, isRet := in.(*ssa.Return)
+			if !isRet || len(ret.Results) == 0 {
+				continue
+			}
+			r := ret.Results[0]
+			if cst, isC := r.(*ssa.Const); isC && cst.IsNil() {
+				continue
+			}
+			a := rootAlloc(r)
+			if a == nil {
+				return nil
+			}
+			filled := false
+			for _, ci := range Calls(g) {
+				cs := p.CallSym(ci)
+				if cs.Name != "json.Unmarshal" || len(cs.Args) != 2 || rootAlloc(ci.Common().Args[1]) != a {
+					continue
+				}
+				from := cs.Args[0].Strip().Contains(func(x *Sym) bool {
+					return (x.IsCall("Table.GetJSON") || x.IsCall("json.Marshal")) && len(x.Args) > 0 && symIsParam(x.Args[0].Strip(), src)
+				})
+				if from && Dominates(ci, ret) {
+					filled = true
+				}
+			}
+			if !filled {
+				return nil
+			}
+			nRet++
+		}
+	}
+	if nRet == 0 {
+		return nil
+	}
+	return call
 }
